@@ -137,18 +137,18 @@ func Prop(c Case, x *h.Ctx) *h.Violation {
 		}
 		hd, ok := rio.ParseHeader(data[off:end])
 		if !ok {
-			return h.V("kaitai/harness", "independent decoder cannot parse record %d", i)
+			panic(h.Infra{Msg: "harness decoder out of step with the on-disk format (not a verdict): " + fmt.Sprintf("independent decoder cannot parse record %d", i)})
 		}
 		st = append(st, stored{hd.Nil, data[int(off)+hd.Len : end], hd.USize, hd.CSize, hd.CRC})
 		if hd.Nil != (native[i] == nil) {
-			return h.V("kaitai/harness", "record %d: on-disk nil flag %v, native reader nil=%v", i, hd.Nil, native[i] == nil)
+			panic(h.Infra{Msg: "harness decoder out of step with the on-disk format (not a verdict): " + fmt.Sprintf("record %d: on-disk nil flag %v, native reader nil=%v", i, hd.Nil, native[i] == nil)})
 		}
 	}
 
 	fpc := fmt.Sprintf("kaitai/comp%d", c.Comp)
 	codes, err := schemaCompressionCodes()
 	if err != nil {
-		return h.V("kaitai/harness", "cannot read the generated package: %v", err)
+		panic(h.Infra{Msg: "harness decoder out of step with the on-disk format (not a verdict): " + fmt.Sprintf("cannot read the generated package: %v", err)})
 	}
 	if _, ok := codes[int64(c.Comp)]; !ok {
 		return h.V(fpc+"/unknown-compression-code", "compression code %d written by the writer is not among the schema's constants %v", c.Comp, codes)
